@@ -14,7 +14,7 @@ SX_NOTE = (
 
 CLAIMED = {
     "C02": dict(
-        text="Bounded symbolic execution of the real consumers/serializer base classes: for every stream of <=N symbolic bytes, every placement of <=K cuts, both receive paths, the delivered packet/error sequence equals reference frame-by-frame decoding; after a size rejection (junk length L-S-2..L+S+2) later frames arrive intact. The solver decides over all byte values/cuts inside the bound; rare (cut, limit, stale byte) combinations are what tests cannot sample.",
+        text="Bounded symbolic execution of the real consumers/serializer base classes: for every stream of <=N symbolic bytes, every placement of <=K cuts, both receive paths, the delivered packet/error sequence equals reference frame-by-frame decoding; after a size rejection (junk length L-S-2..L+S+2) later frames arrive intact; the JSON raw parser's limit inside a document is covered the same way. The solver decides over all byte values/cuts inside the bound; rare (cut, limit, stale byte) combinations are what tests cannot sample.",
         design="4/C02",
         technique="symbolic execution of real code (CrossHair+z3), differential vs reference decoder, per-path concrete validation",
     ),
@@ -27,21 +27,21 @@ CLAIMED["C07"] = dict(
 )
 
 CLAIMED["C01"] = dict(
-    text="Bounded symbolic execution of producer -> wire -> real consumers: (a) packets with symbolic contents through the real separator/fixed-size base classes, StringLineSerializer, the compressor wrapper base class (pure-Python codec), stapled composite and converter protocols; (b) for the C-coded codecs (json, struct, base64, zlib, bz2, pickle-file) a fixed packet corpus with symbolic cut positions and size hints, i.e. every chunking of each wire. Asserted: delivered == sent, in order, once, nothing left, no error.",
+    text="Bounded symbolic execution of producer -> wire -> real consumers: (a) packets with symbolic contents through the real separator/fixed-size base classes, StringLineSerializer, the compressor wrapper base class (pure-Python codec), stapled composites (same-kind and mixed-kind halves against their mirrored peer) and converter protocols; (b) for the C-coded codecs (json, struct, base64, zlib, bz2, pickle-file) a fixed packet corpus with symbolic cut positions and size hints, i.e. every chunking of each wire. Asserted: delivered == sent, in order, once, nothing left, no error.",
     design="4/C01",
     technique="symbolic execution of real code (CrossHair+z3): symbolic packet contents and cut positions; corpus x solver-enumerated chunkings for C codecs",
     note="For C-coded serializers the content dimension is a fixed corpus (sampled); only chunking/receive path/size hint is decided by the solver.",
 )
 
 CLAIMED["C06"] = dict(
-    text="Bounded symbolic execution: (a) every stream / datagram of N symbolic bytes through the real scanners, consumers, protocols and base classes yields only packets, StopIteration or protocol parse errors, an error-skipping loop terminates (each error consumes >= 1 byte), and no call hangs (wall-clock watchdog on symbolic paths + concrete hang confirmation); (b) error-mapping totality around the C decoders (json, pickle, zlib, bz2, base64): the decode call raises a solver-chosen class of the library's observable exception set and must surface as a parse error; every such path is confirmed with real bytes that make the real library raise that class.",
+    text="Bounded symbolic execution: (a) every stream / datagram of N symbolic bytes through the real scanners, consumers, protocols and base classes yields only packets, StopIteration or protocol parse errors, an error-skipping loop terminates (each error consumes >= 1 byte), and no call hangs (wall-clock watchdog on symbolic paths + concrete hang confirmation); (b) error-mapping totality around the C decoders (json, pickle, zlib, bz2, base64): the decode call raises a solver-chosen class of the library's observable exception set and must surface as a parse error; every such path is confirmed with real bytes that make the real library raise that class (json also with debug error info; pickle including exception classes raised by rebuilding callables).",
     design="4/C06",
     technique="symbolic execution of real code (CrossHair+z3) over arbitrary input bytes; exception-class choice as a solver variable with real-input witnesses",
     note="(b) assumes the listed exception sets of the C decoders; MemoryError and decoder crashes are outside.",
 )
 
 CLAIMED["C05"] = dict(
-    text="Bounded symbolic execution of the real DatagramProtocol, the one-shot interface derived from incremental serializers, and the sync + async datagram endpoints over an in-memory datagram FIFO: a datagram of N symbolic bytes is accepted iff it is exactly one complete frame; in a solver-chosen sequence of sent packets (symbolic contents) and injected arbitrary datagrams every position yields what a fresh endpoint yields for that datagram alone, sent packets come back equal, one transport.send per send_packet (empty payloads included) and one recv per recv_packet.",
+    text="Bounded symbolic execution of the real DatagramProtocol, the one-shot interface derived from incremental serializers, and the sync + async datagram endpoints over an in-memory datagram FIFO: a datagram of N symbolic bytes is accepted iff it is exactly one complete frame; in a solver-chosen sequence of sent packets (symbolic contents) and injected arbitrary datagrams every position yields what a fresh endpoint yields for that datagram alone, sent packets come back equal, one transport.send per send_packet (empty payloads included) and one recv per recv_packet. The real asyncio DatagramEndpoint + protocol run on a deterministic loop with solver-chosen arrivals and cancellations of a pending recvfrom: no datagram is lost.",
     design="4/C05",
     technique="symbolic execution of real code (CrossHair+z3): symbolic datagram bytes and packet contents, differential against a fresh protocol object",
 )
@@ -60,21 +60,21 @@ CLAIMED["C11"] = dict(
 )
 
 CLAIMED["C10"] = dict(
-    text="Bounded symbolic execution of the real StreamReaderBufferedProtocol + AsyncioTransportStreamSocketAdapter on a deterministic event loop with real asyncio tasks: a solver-chosen sequence of K events (loop iteration / kernel delivers k bytes / task.cancel() or expiry of the enclosing move_on_after scope) with symbolic arrival and receive sizes, then a drain. Asserted: everything returned by successful receives, concatenated, equals the stream (no byte lost, duplicated or reordered), no receive raises, the drain terminates.",
+    text="Bounded symbolic execution on a deterministic event loop with real asyncio tasks of every receive layer named by the property: StreamReaderBufferedProtocol + AsyncioTransportStreamSocketAdapter (recv / recv_into), AsyncStreamEndpoint.recv_packet on both receive paths, the server request receivers, AsyncTCPNetworkClient.recv_packet, and two real AsyncTLSStreamTransport objects (real ssl objects) over an in-memory pipe: a solver-chosen sequence of K events (loop iteration / kernel delivers k bytes / task.cancel() or expiry of the enclosing move_on_after scope) with symbolic arrival and receive sizes, then a drain. Asserted: everything returned by successful receives, concatenated, equals the stream (no byte or packet lost, duplicated or reordered), no receive raises, the drain terminates.",
     design="4/C10",
     technique="symbolic execution of real code (CrossHair+z3) over event schedules and sizes on a deterministic asyncio loop",
-    note="Schedule/size space exhaustion: stream contents are concrete distinct bytes; the solver decides event order, arrival sizes and receive sizes. Endpoint/server-level variants are covered by C03/C15 checks.",
+    note="Schedule/size space exhaustion: stream contents are concrete distinct bytes; the solver decides event order, arrival sizes and receive sizes. In the TLS shards OpenSSL runs concretely (only the schedule is symbolic; the assertion is about the Python glue around a cancelled want-read). Open known finding F-C10-connect (cancel during AsyncTCPNetworkClient's lazy connect) is excluded by signature and printed as KNOWN-FINDING.",
 )
 
 CLAIMED["C20"] = dict(
     text="Bounded symbolic execution of the real WriteFlowControl / writer_drain / AsyncioTransportStreamSocketAdapter.send_all over a fake asyncio transport on a deterministic loop: 2-3 sender tasks, a solver-chosen sequence of events (loop iteration, kernel takes j bytes, start sender, cancel a sender, fatal error) with symbolic immediate-accept and flush sizes, then a final resume or connection loss. Asserted: user-space buffering disabled (high-water mark 0); a send_all that returns did so only after its own bytes reached the kernel; after the final resume every non-cancelled sender returned; after a loss every unfinished sender raises OSError (no hang, no silent drop); cancelling one parked sender strands nobody.",
     design="4/C20",
     technique="symbolic execution of real code (CrossHair+z3) over event schedules and sizes on a deterministic asyncio loop",
-    note="Stream adapter only (datagram endpoint/listener protocols share the same WriteFlowControl class but are not driven).",
+    note="Also driven: the datagram users of the same WriteFlowControl class (asyncio DatagramEndpoint.sendto, DatagramListenerSocketAdapter.send_to) with the same event alphabet.",
 )
 
 CLAIMED["C03"] = dict(
-    text="Bounded symbolic execution of the real StreamEndpoint (over SocketStreamTransport + fake socket), AsyncStreamEndpoint (over an in-memory transport) and TCPNetworkClient (recv_packet, iter_received_packets): frames with symbolic payloads plus an incomplete tail, the peer closes after a symbolic number of bytes, kernel read sizes symbolic, both receive paths, several max_recv_size. Asserted: packets returned == frames fully contained before the close, in order, once; all delivered before the first end-of-stream; every later call reports end-of-stream again (a transport that blocks after its single EOF makes re-reading visible as a hang); the tail is never delivered.",
+    text="Bounded symbolic execution of the real StreamEndpoint (over SocketStreamTransport + fake socket), AsyncStreamEndpoint (over an in-memory transport) and TCPNetworkClient (recv_packet, iter_received_packets): frames with symbolic payloads plus an incomplete tail, the peer closes after a symbolic number of bytes, kernel read sizes symbolic, both receive paths, several max_recv_size. Asserted: packets returned == frames fully contained before the close, in order, once; all delivered before the first end-of-stream; every later call reports end-of-stream again (a transport that blocks after its single EOF makes re-reading visible as a hang); the tail is never delivered. Also: AsyncTCPNetworkClient.recv_packet over an in-memory backend, a serializer whose packets may be None, and a pending SO_ERROR on the client's socket (never eats a packet already received).",
     design="4/C03",
     technique="symbolic execution of real code (CrossHair+z3): payload bytes, close position, read sizes and would-block pattern as solver variables",
 )
@@ -99,10 +99,10 @@ CLAIMED["C12"] = dict(
 )
 
 CLAIMED["C14"] = dict(
-    text="Bounded symbolic execution with the crash point as a solver variable: each close path (stapled transports, aclose_forcefully, AsyncStreamEndpoint.aclose, server-side _ConnectedClientAPI.aclose, the asyncio socket adapter, AsyncTLSStreamTransport.aclose and .wrap with a peer that never answers) runs in a task on a deterministic loop; task.cancel() is injected at loop iteration k (symbolic), combined with a solver-chosen fault (which wrapped close/send raises OSError or RuntimeError) and whether the TLS shutdown/handshake timeout expires first. Asserted: aclose() was invoked on every wrapped transport (both stapled halves even if the first raised; the wrapped transport after a failed or cancelled wrap()), is_closing() holds, a second aclose() returns promptly.",
+    text="Bounded symbolic execution with the crash point as a solver variable: each close path (stapled transports, aclose_forcefully, AsyncStreamEndpoint.aclose, server-side _ConnectedClientAPI.aclose, AsyncTCPNetworkClient.aclose, the asyncio socket adapter, AsyncTLSStreamTransport.aclose and .wrap with a peer that never answers) runs in a task on a deterministic loop; task.cancel() is injected at loop iteration k (symbolic; in the close2 shards a second cancellation at k2), combined with a solver-chosen fault (which wrapped close/send raises OSError or RuntimeError) and whether the TLS shutdown/handshake timeout expires first. Asserted: aclose() was invoked on every wrapped transport (both stapled halves even if the first raised; the wrapped transport after a failed or cancelled wrap()), is_closing() holds, a second aclose() returns promptly.",
     design="4/C14",
     technique="symbolic execution of real code (CrossHair+z3): cancellation point, fault choice and timeout-first choice as solver variables on a deterministic asyncio loop",
-    note="TLS paths use a stub SSL object (peer silent); real OpenSSL shutdown is outside. AsyncTCPNetworkClient.aclose over real sockets is outside.",
+    note="TLS paths use a stub SSL object (peer silent); real OpenSSL shutdown is outside. Real sockets are outside (in-memory transports).",
 )
 
 CLAIMED["C19"] = dict(
@@ -119,14 +119,14 @@ CLAIMED["C18"] = dict(
 )
 
 CLAIMED["C17"] = dict(
-    text="Bounded symbolic execution of the real AsyncTCPNetworkServer and AsyncUDPNetworkServer (client initializers, exception fences, _ClientContext.__aexit__, lowlevel handler builders, task-group wiring) on a deterministic loop with in-memory listeners: one faulty client raises a solver-chosen exception class (plain, group, ConnectionError, ClientClosedError, TimeoutError, mixed groups) at a shard-chosen hook position (on_connection before/after an await, handle before the first yield / after a request / while handling a thrown parse error / re-raising it / yielding an invalid timeout, on_disconnection) or is reset right after accept, while a healthy client's traffic is interleaved by a solver-chosen schedule. Asserted: the server task keeps running, nothing reaches the event loop, the healthy client gets every response; TCP: faulty connection closed, on_disconnection ran iff on_connection completed; UDP: a later datagram of the faulty address is handled by a fresh generator.",
+    text="Bounded symbolic execution of the real AsyncTCPNetworkServer and AsyncUDPNetworkServer (client initializers, exception fences, _ClientContext.__aexit__, lowlevel handler builders, task-group wiring) on a deterministic loop with in-memory listeners: one faulty client raises a solver-chosen exception class (plain, group, ConnectionError, ClientClosedError, TimeoutError, mixed groups) at a shard-chosen hook position (on_connection before/after an await, handle before the first yield / after a request / while handling a thrown parse error / re-raising it / parse error after a valid pipelined request / yielding an invalid timeout, on_disconnection; TCP on both receive paths) or is reset right after accept, while a healthy client's traffic is interleaved by a solver-chosen schedule. Asserted: the server task keeps running, nothing reaches the event loop, the healthy client gets every response; TCP: faulty connection closed, on_disconnection ran iff on_connection completed; UDP: a later datagram of the faulty address is handled by a fresh generator.",
     design="4/C17",
     technique="symbolic execution of real code (CrossHair+z3): exception class and schedule as solver variables on a deterministic asyncio loop",
     note="Exception subclasses and groups only (KeyboardInterrupt/SystemExit outside); TLS handshake failures outside (real OpenSSL); kernel RST modelled as ConnectionResetError on first read.",
 )
 
 CLAIMED["C13"] = dict(
-    text="Bounded exploration, driven by the solver, of cancel-scope programs executed by the real CancelScope / TaskUtils / AsyncIOBackend code on a deterministic loop with real asyncio tasks and timers: a descriptor (1-3 nested scopes of kinds move_on_after / timeout / explicit cancel / reschedule / never cancelled, body sleeps with an optional ignore_cancellation section, optional external task.cancel()) with all durations from a small grid is decoded into a program; invariants taken directly from the statement are asserted per run (no sleep resumes after an enclosing scope became cancelled; a deadline that passed cancelled the scope; abandoned body => caught or an enclosing cancel; un-cancelled scopes neither catch nor swallow; timeout() raises iff caught; no leftover cancellation after the scopes; shielded sections run to completion).",
+    text="Bounded exploration, driven by the solver, of cancel-scope programs executed by the real CancelScope / TaskUtils / AsyncIOBackend code on a deterministic loop with real asyncio tasks and timers: a descriptor (1-3 nested scopes of kinds move_on_after / timeout / explicit cancel / reschedule / never cancelled, body sleeps with an optional ignore_cancellation section, optional external task.cancel()) with all durations from a small grid is decoded into a program; in addition statement programs (sequences over sleep / shielded yield / shielded sleep / shielded await of a failing future / scope_k.cancel()) run inside nests of up to 3 scopes; invariants taken directly from the statement are asserted per run (no sleep resumes after an enclosing scope became cancelled; a deadline that passed cancelled the scope; abandoned body => caught or an enclosing cancel; un-cancelled scopes neither catch nor swallow; timeout() raises iff caught; no leftover cancellation after the scopes; shielded sections run to completion).",
     design="4/C13",
     technique="symbolic execution of real code (CrossHair+z3): the solver exhausts the bounded descriptor x timing space; invariant oracle",
     note="Honest statement of level: every path is one concrete program + timing (values must be concrete when they reach CPython's C timer heap); the solver's role is exhaustive, gap-free coverage of the bounded descriptor space. Ties (two cancellations pending at one checkpoint) are left unconstrained, as the statement allows.",
